@@ -4,7 +4,11 @@ import nets
 
 PID = "C13"
 THEOREMS = ["path_bound", "trace_terminates", "trace_in_bounds", "err_walk_terminates", "rank_total",
-            "eam_walk_terminates", "out_walk_terminates", "dmm_walk_terminates"]
+            "eam_walk_terminates", "out_walk_terminates", "dmm_walk_terminates",
+            "tracem_bound", "adjust_terminates", "segment_paths_terminates", "segment_paths_short", "streams_terminates",
+            "up_eam_plus_terminates", "ihu_walk_none_iff", "climb_fuel", "subbasins_pfafstetter_terminates", "idxs_seq_fuel",
+            "rank_fuel_terminates", "flood_iterations", "fill_depressions_terminates", "spread_iterations",
+            "spread2d_terminates", "spread_negative_friction_refuted"]
 RULE = ("every public FlwdirRaster / Flwdir method and the module-level functions (from_array, from_dem, "
         "dem.fill_depressions / slope, gis_utils.spread2d, regions.*) with documented option values INCLUDING boundary "
         "values (max_depth = 0 and > 0, connectivity 4 / 8, outlets edge / min / user, scale factor 1, window 0, "
